@@ -674,6 +674,15 @@ class Parser:
     def _raise_for_non_comparable_function(
         self, expr: Expression, token: Token
     ) -> None:
+        # comparable = literal / singular-query / function-expr
+        if not isinstance(
+            expr, (FilterExpressionLiteral, FilterQuery, FunctionExtension)
+        ):
+            raise JSONPathSyntaxError(
+                "expected a literal, a singular query or a function call",
+                token=expr.token,
+            )
+
         if isinstance(expr, FilterQuery) and not expr.query.singular_query():
             raise JSONPathTypeError("non-singular query is not comparable", token=token)
 
